@@ -856,3 +856,8 @@ for _lay, _fill, _lnm, _rch in ((0, 31, "last_slot_free", ["inserted"]), (0, 32,
           symbolic="stored value (the layout is concrete per obligation)", stubs=["hs_hash32 replaced by a table key -> bucket"],
           assumes=[], bounds="order 7 (128 slots), concrete layout around bucket %d%s, %d keys in the window, uint32 keys" % (_base, " (wraps around the table end)" if _base else "", _fill),
           timeout={"quick": 600, "thorough": 3000})
+
+for _vt, _nm in enumerate(("null", "false", "empty_string", "empty_array", "empty_object", "zero")):
+    O(id="C04.state_with_value_" + _nm, props=["C04", "C02"], entry="harness_value_types", defines=["VTYPE=%d" % _vt],
+      functions=["add_element_to_peer", "init_element", "get_elements", "set_or_call", "change_state"],
+      symbolic="argument / new value", assumes=[], bounds="O adds 'v' with the value %s; A get, A call, O change" % _nm, **_scn_guard)
